@@ -436,6 +436,7 @@ class _LoopHook:
         self.calls = 0
         self.budget = budget
         self.observed: list[tuple] = []
+        self.model_steps: list = []
         self.decisions: list[bool] = []
         self.types: set = set()
 
@@ -443,6 +444,10 @@ class _LoopHook:
         self.world.seam("stop")
         self.calls += 1
         self.observed.append((epoch, _f(tl), _f(vl), float(et)))
+        try:
+            self.model_steps.append(int(np.asarray(model.t)))
+        except Exception:
+            self.model_steps.append(None)
         self.decisions.append(bool(r))
         if tl is not None:
             self.types.add(type(tl).__name__)
@@ -534,6 +539,17 @@ def _exec_loop(plan, ctx, world, viol, bump, states_seen) -> int:
     # was supplied, as in the real-model batch, and the fact is counted.
     obs_train = [o[1] for o in hook.observed[1:]]
     obs_val = [o[2] for o in hook.observed[1:]]
+    # the model and the validation loss handed to stop() must belong together: in the scripted world the validation
+    # loss of a model is a function of its step counter ("the model they hand back is the one from the epoch that
+    # achieved that best loss" is only meaningful if each loss is the loss of the model it arrives with)
+    if val_steps is not None:
+        for (epoch, tl, vl, et), tstep in zip(hook.observed[1:], hook.model_steps[1:]):
+            if vl is None or tstep is None:
+                continue
+            want_v = float(np.float32(vs[min(tstep, S_MAX - 1)]))
+            if not (vl == want_v or (math.isnan(vl) and math.isnan(want_v))):
+                viol("val_loss_not_of_passed_model", {"epoch": epoch, "model_step": tstep, "val_loss_passed": vl, "val_loss_of_that_model": want_v}, site + "/stop_arguments")
+                break
 
     def _same(a, b):
         return a == b or (a is not None and b is not None and math.isnan(a) and math.isnan(b))
